@@ -148,6 +148,11 @@ for sk, sc, sd in SIDES:
     reg('c07_has_legal_moves_wiring_pawns_%s' % sk, 'C07', QT, 3600, 22, FULL + GEN20 + 'real has_legal_moves with the legality filter abstracted (S6); ' + sd,
         'c07::has_legal_moves_wiring::<_, %s, 2, 0>' % sc, 's126', 65, gen_k=(2, 0), bounds='GEN(2 pawns, 0 pieces)', props=['C07', 'C01'])
 
+for sk, sc, sd in SIDES:
+    reg('c07_has_legal_moves_direct_%s' % sk, 'C07', T, 5400, 28, FULL + ' + GEN(1 pawn, 0 pieces): mover has king and at most one pawn; real has_legal_moves with the real legality filter; ' + sd,
+        'c07::has_legal_moves_direct::<_, %s, 1, 0>' % sc, 's12', 65, gen_k=(1, 0), bounds='GEN(1 pawn, 0 pieces)', props=['C07', 'C01'])
+reg('c07_diag_wiring_semi_w', 'C07', NEVER, 1800, 16, 'diagnostic', 'c07::wiring_semi::<_, WHITE>', 's126', 65, gen_k=(2, 0), props=[])
+
 # ---------------------------------------------------------------- C10
 fam('c10_uci_struct_roundtrip', 'C10', 'c10::uci_struct_roundtrip', 's12', 65, 2400, 10, 'all semilegal moves of the group', quick='all')
 for part, pc, pd in [('semi', 'UA_SEMI', 'semilegal reader <=> a semilegal move with these fields exists'),
